@@ -103,11 +103,10 @@ def run(tier, seed, replay=None):
                        "g++ 12 -fsanitize=thread instrumentation",
                        "scn_c09.cpp observation devices: mmap/PROT_NONE guard allocator + SIGSEGV handler, address-tracked result type"],
         explanation="Theorems (Props/C09*, reflection: kernel-evaluated closure of the full reachable set of each instance; the protocol has a "
-                    "fixed number of parties, so an instance theorem is the complete proof for that usage): *_safe for await/drop/connect_drop; "
-                    "for the cancel instances *_safe_modulo_uaf plus witness theorems *_uaf (the code as it is runs abandon() on the freed heap "
-                    "block when a stop request arrives between the continuation's deleter_ and the deregistration of the stop callback); "
-                    "connect_stop_drop_value_safe_modulo_terminate plus connect_stop_drop_terminates (connect, stop request, destroy without "
-                    "start reaches std::terminate() in drop()). Tie: trace inclusion of every explored real execution in the model of the same "
-                    "name; model-independent monitors: double delete, leak, use after free (guard pages), result constructed != destroyed, "
-                    "receiver completed twice, delivered value != produced value, missing/spurious stop request on the spawned operation, "
-                    "scope join not completing.")
+                    "fixed number of parties, so an instance theorem is the complete proof for that usage): *_safe (the full property `safe`, spelled "
+                    "out in safe_spelled) for await_*, cancel_*, late_cancel_value, drop_*, connect_drop_value, connect_stop_drop_value, detached_*. "
+                    "Tie: trace inclusion of every explored real execution in the model of the same "
+                    "name; model-independent monitors: double delete, leak, use after free (guard pages), std::terminate() reached, result "
+                    "constructed != destroyed, receiver completed twice, delivered value != produced value, late stop request changing the result, "
+                    "missing/spurious stop request on the spawned operation, scope join not completing. Known finding (v1 design deviation): a "
+                    "future obtained from v1::async_scope completes with done when the stop request arrives after its result was consumed.")
